@@ -39,6 +39,11 @@ func c06Observed(k int) string {
 	case 1:
 		return "counter total\nhidden gauge acc\ncounter big\n/^(?P<first>[a-c])(?P<n>\\d+)/ {\n  total++\n  acc = $n\n  acc > 4 {\n    big++\n  }\n}\n"
 	}
+	if k == 3 {
+		// relies on the default of timestamp(): the processing time, which is recent (the fake clock starts in
+		// 2000); another program setting ITS time register to 1970 must not change that
+		return "counter total\ncounter recent\ncounter ancient\n/^(?P<first>[a-c])(?P<n>\\d+)/ {\n  total++\n  timestamp() > 900000000 {\n    recent++\n  } else {\n    ancient++\n  }\n}\n"
+	}
 	return "counter total by first\ngauge ratio\n/^(?P<first>[a-c])(?P<n>\\d+)/ {\n  total[$first]++\n  ratio = 100 / $n\n}\n" // n==0: runtime error
 }
 
@@ -65,6 +70,8 @@ var c06Others = []struct {
 	// (also as an edit of a program that already holds the name) must be refused while the other is there
 	{"extra-counter", "counter extra\n/./ {\n  extra++\n}\n", "depends"},
 	{"extra-gauge", "gauge extra\n/./ {\n  extra = 1\n}\n", "depends"},
+	// sets its own time register on every line (1970): no other program's timestamp() may see that
+	{"sets-time", "counter total\n/./ {\n  settime(1)\n  total++\n}\n", "loads"},
 	{"hidden-same-name", "hidden counter total\ncounter visible\n/./ {\n  total++\n  visible = total\n}\n", "loads"},
 }
 
@@ -108,7 +115,7 @@ func c06Scrape(e *Env, r *rtRig, ex *exporter.Exporter, ps *promScraper) (string
 
 func propC06(e *Env) {
 	e.S.StmtPreempt = e.Choose("knob", 3) == 1
-	obsK := e.Choose("gen", 3)
+	obsK := e.Choose("gen", 4)
 	obs := "obs.mtail"
 	nlines := 4 + e.Choose("gen", 30)
 	var lines []string
@@ -171,14 +178,32 @@ func propC06(e *Env) {
 	if ex == nil {
 		return
 	}
+	// one run in three: one or two other programs are already in the directory when mtail starts; their
+	// names sort before the observed program's, so they are loaded (and registered) first
+	present := map[string]int{} // other program file -> index in c06Others
+	var did []string
+	if e.Choose("gen", 3) == 0 {
+		for i := 0; i < 1+e.Choose("gen", 2); i++ {
+			slot := fmt.Sprintf("o%d.mtail", i)
+			k := e.Choose("gen", len(c06Others))
+			if c06Others[k].name == "kind-conflict" {
+				// registered first, this one would legitimately get the observed program refused (the one
+				// interaction the statement permits)
+				k = 0
+			}
+			os.WriteFile(filepath.Join(dir, slot), []byte(c06Others[k].src), 0o644)
+			present[slot] = k
+			did = append(did, fmt.Sprintf("%s=%s present at start", slot, c06Others[k].name))
+			e.Probe("other_" + c06Others[k].name)
+		}
+		e.Probe("others_loaded_before_observed")
+	}
 	r := newRtRigStore(e, dir, store, rtOpts...)
 	if !r.quiesce() || !r.started || r.err != nil {
 		e.Broken("runtime.New: %v", r.err)
 		return
 	}
-	var did []string
 	hist := func() string { return strings.Join(did, "; ") }
-	present := map[string]int{} // other program file -> index in c06Others
 	pos := 0
 	for op := 0; op <= nops && !e.Failed(); op++ {
 		// a segment of lines
